@@ -337,7 +337,8 @@ Enter(pi, b, sid, kk) ==
       proc == st.prog.subs[pi]
       base == IF proc.static /\ proc.n \in DOMAIN st.statics THEN st.statics[proc.n] ELSE NoFun
       vars == b.vars @@ base        \* parameters are (re)bound at each call
-      a == [sub |-> proc.n, vars |-> vars, refs |-> b.refs, site |-> sid, lc |-> NoFun]
+      \* gsb: how many GOSUBs were pending when the procedure was entered (its own come on top of them)
+      a == [sub |-> proc.n, vars |-> vars, refs |-> b.refs, site |-> sid, lc |-> NoFun, gsb |-> Len(st.gs)]
   IN [b.st EXCEPT !.act = Append(@, a),
                   !.k = kk \o <<[f |-> "call"], SeqFrame(proc.body, <<0 - pi, 0>>)>>]
 
@@ -358,7 +359,9 @@ ReturnFromCall(st) ==
       rv == IF proc.kind = "fun"
             THEN (IF rkey \in DOMAIN a.vars THEN a.vars[rkey] ELSE Default(proc.t))
             ELSE Val("I", 0)
+      \* the GOSUBs that are still pending in the procedure that ends are gone with it
       st1 == [st EXCEPT !.act = Front(@), !.k = Front(@), !.ret = rv,
+                        !.gs = IF Len(@) > a.gsb THEN SubSeq(@, 1, a.gsb) ELSE @,
                         !.statics = IF proc.static
                                     THEN (IF proc.n \in DOMAIN @ THEN [@ EXCEPT ![proc.n] = a.vars]
                                           ELSE @ @@ (proc.n :> a.vars))
@@ -727,7 +730,7 @@ DataOf(body) ==
 Start(prog, fuel) ==
   [prog |-> prog,
    k |-> <<SeqFrame(prog.main, <<0, 0>>)>>,
-   act |-> <<[sub |-> "", vars |-> NoFun, refs |-> <<>>, site |-> 0, lc |-> NoFun]>>,
+   act |-> <<[sub |-> "", vars |-> NoFun, refs |-> <<>>, site |-> 0, lc |-> NoFun, gsb |-> 0]>>,
    statics |-> NoFun, shared |-> {}, consts |-> NoFun, fix |-> NoFun,
    gs |-> <<>>, h |-> [m |-> "none", l |-> ""], ei |-> [on |-> FALSE], errv |-> 0,
    data |-> DataOf(prog.main), dcur |-> 1,
